@@ -77,7 +77,7 @@ def arg_menu(helper):
     if helper == "quantile":
         return [{"q": q, "drop_na": d} for q in (0, 0.25, 0.5, 1) for d in drop]
     if helper in ("std", "var"):
-        return [{"ddof": dd, "drop_na": d} for dd in (0, 1) for d in drop]
+        return [{"ddof": dd, "drop_na": d} for dd in (0, 1, 2) for d in drop]
     return [{"drop_na": d} for d in drop]
 
 
